@@ -1,6 +1,6 @@
 (** Dispatch table used by the extracted runner: property number -> model runner / monitor. *)
 From RRE Require Import Base.Sx.
-From RRE Require Model.Watermark Model.Tms Model.ProofGraph Model.Undo Model.Module Model.Window Model.Join Model.KB Model.Index Model.State Model.ReteAgenda Model.EngineConc Model.Parallel Model.Incremental Model.ExprShape Model.ForwardSpec.
+From RRE Require Model.Watermark Model.Tms Model.ProofGraph Model.Undo Model.Module Model.Window Model.Join Model.KB Model.Index Model.State Model.ReteAgenda Model.EngineConc Model.Parallel Model.Incremental Model.ExprShape Model.ForwardSpec Model.Grl.
 Open Scope Z_scope.
 
 Definition run_by_id (id : Z) (c : sx) : sx :=
@@ -8,6 +8,7 @@ Definition run_by_id (id : Z) (c : sx) : sx :=
   | 1 => ForwardSpec.run_sx c
   | 2 => EngineConc.run_sx c
   | 3 => EngineConc.run_sx c
+  | 4 => Grl.run_sx c
   | 5 => ExprShape.run_sx c
   | 6 => Incremental.run_sx c
   | 7 => ReteAgenda.run_sx c
@@ -34,6 +35,7 @@ Definition ok_by_id (id : Z) (c o : sx) : Z :=
   | 1 => ForwardSpec.ok_sx c o
   | 2 => b2z (EngineConc.ok_sx c o)
   | 3 => b2z (EngineConc.ok_sx c o)
+  | 4 => Grl.ok_sx c o
   | 5 => ExprShape.ok_sx c o
   | 6 => b2z (Incremental.ok_sx c o)
   | 7 => b2z (ReteAgenda.ok_sx c o)
